@@ -73,3 +73,31 @@ Theorem remove_dups_clean : forall s,
   find_dup rxn_eqb (map rx_key (rl (step s RemoveDups))) = ([], []).
 Proof. exact remove_dups_lemma. Qed.
 Print Assumptions remove_dups_clean.
+
+(** ** the network-editing command: `naunet extend` is the pipeline read -> reduce-by-species -> remove-species ->
+    remove-duplicate -> append steps -> re-index (Model.Network.extend) *)
+(* whatever the options, the written network is consistent: its species / sources / sinks are those of its reactions *)
+Theorem extend_consistent : forall reduce remove dups appends l, Inv (extend reduce remove dups appends l).
+Proof. exact extend_inv_lemma. Qed.
+Print Assumptions extend_consistent.
+
+(* reduce-by-species keeps exactly the reactions all of whose species are listed, in order *)
+Theorem reduce_keeps_listed_only : forall al s,
+  rl (reduce_by al s) = filter (fun r => forallb (fun x => memb Nat.eqb x al) (rx_reac r ++ rx_prod r)) (rl s).
+Proof. exact reduce_by_rl. Qed.
+Print Assumptions reduce_keeps_listed_only.
+
+(* an append step adds, for species of the network AS IT IS NOW (after the reductions) that have a counterpart, the
+   reaction species -> counterpart, keeps every held reaction and adds nothing else *)
+Theorem append_step_spec : forall f ty s r, Inv s ->
+  (In r (rl s) -> In r (rl (append_by f ty s))) /\
+  (In r (rl (append_by f ty s)) ->
+   In r (rl s) \/
+   exists x y, f x = Some y /\ r = mk_simple 0 [x] [y] ty /\
+               exists r0, In r0 (rl s) /\ (In x (rx_reac r0) \/ In x (rx_prod r0))).
+Proof.
+  intros f ty s r HI. split.
+  - apply append_by_keeps_lemma.
+  - apply append_by_spec_lemma. exact HI.
+Qed.
+Print Assumptions append_step_spec.
